@@ -291,20 +291,79 @@ def oracle_tuned(c, r):
 
 
 def mono_cases(rng, count):
-    return [{"n": rng.randint(10, 40), "m": rng.randint(1, 3), "s1": rng.choice([0.0, 0.05, 0.1, 0.3, 0.5]),
-             "f": rng.choice([1.5, 2.0, 4.0, 10.0]), "seed": rng.randint(0, 10**6)} for _ in range(count)]
+    out = []
+    for _ in range(count):
+        c = {"n": rng.randint(10, 40), "m": rng.randint(1, 3), "s1": rng.choice([0.0, 0.05, 0.1, 0.3, 0.5]),
+             "f": rng.choice([1.5, 2.0, 4.0, 10.0]), "seed": rng.randint(0, 10**6), "data": "steps"}
+        if rng.random() < 0.5:
+            # weak structure under noise and penalties a few per cent apart: tentative changepoints are retracted later on
+            c.update({"n": rng.randint(30, 60), "m": rng.randint(2, 3), "s1": rng.choice([0.15, 0.2, 0.25, 0.3, 0.35, 0.4]),
+                      "f": rng.choice([1.03, 1.1, 1.25]), "data": rng.choice(["noise", "noisy-steps"])})
+        out.append(c)
+    return out
+
+
+def mono_data(c):
+    g = np.random.default_rng(c["seed"])
+    n = c["n"]
+    if c.get("data", "steps") == "steps":
+        return g.integers(-3, 4, size=(n, 1)).astype(float) + np.repeat(g.integers(-3, 4, size=4), -(-n // 4))[:n, None]
+    x = np.round(g.normal(size=n), 2)
+    if c["data"] == "noisy-steps":
+        x = x + np.repeat(np.round(g.normal(scale=2.0, size=6), 2), -(-n // 6))[:n]
+    return x.reshape(-1, 1)
+
+
+def _pen_cost(x, cps, pen):
+    b = [0] + list(cps) + [len(x)]
+    return sum(float(((x[a:e] - x[a:e].mean()) ** 2).sum()) for a, e in zip(b, b[1:])) + pen * len(cps)
+
+
+def _optimal_cost(x, pen, m):
+    """optimal partitioning by the plain O(n^2) recursion (squared-error cost, segments of at least m rows)"""
+    n = len(x)
+    s1, s2 = np.concatenate(([0.0], np.cumsum(x))), np.concatenate(([0.0], np.cumsum(x * x)))
+    best = [float("inf")] * (n + 1)
+    best[0] = -pen
+    for t in range(m, n + 1):
+        for a in range(0, t - m + 1):
+            if best[a] < float("inf"):
+                v = best[a] + (s2[t] - s2[a] - (s1[t] - s1[a]) ** 2 / (t - a)) + pen
+                if v < best[t]:
+                    best[t] = v
+    return best[n]
 
 
 def impl_mono(c):
     from skchange.change_detectors import PELT
 
-    g = np.random.default_rng(c["seed"])
-    X = g.integers(-3, 4, size=(c["n"], 1)).astype(float) + np.repeat(g.integers(-3, 4, size=4), -(-c["n"] // 4))[: c["n"], None]
+    X = mono_data(c)
+    x = X[:, 0]
     s2 = (c["s1"] if c["s1"] > 0 else 0.02) * c["f"]
+
+    def run(s):
+        d = PELT(penalty_scale=s, min_segment_length=c["m"]).fit(X)
+        cps = [int(v) for v in d.predict(X)["ilocs"]]
+        return cps, float(d.penalty_)
+
     try:
-        k1 = len(PELT(penalty_scale=c["s1"], min_segment_length=c["m"]).fit(X).predict(X))
-        k2 = len(PELT(penalty_scale=s2, min_segment_length=c["m"]).fit(X).predict(X))
-        return {"outcome": "ok", "k1": k1, "k2": k2, "s2": s2}
+        (c1, p1), (c2, p2) = run(c["s1"]), run(s2)
+        out = {"outcome": "ok", "k1": len(c1), "k2": len(c2), "s2": s2}
+        # the monotonicity theorem is about exact minimisers: is each run one?  (hypothesis of the theorem, checked on this input)
+        gaps = [_pen_cost(x, cps, pen) - _optimal_cost(x, pen, c["m"]) for cps, pen in ((c1, p1), (c2, p2))]
+        tol = 1e-9 * (1.0 + float((x * x).sum()))
+        if max(gaps) > tol:
+            out["suboptimal"] = {"gap": max(gaps), "cps": [c1, c2], "penalties": [p1, p2]}
+            # search this series for a pair of penalties on which the count itself goes the wrong way
+            lo = max(min(c["s1"], s2), 0.02)
+            ladder = [lo * 1.02 ** k for k in range(-25, 45)]
+            ks = [len(run(s)[0]) for s in ladder]
+            for i in range(len(ladder)):
+                for j in range(i + 1, len(ladder)):
+                    if ks[j] > ks[i]:
+                        out["ladder"] = [ladder[i], ks[i], ladder[j], ks[j]]
+                        return out
+        return out
     except Exception as ex:
         return {"outcome": "other:" + type(ex).__name__, "msg": str(ex)[:200]}
 
@@ -314,6 +373,10 @@ def oracle_mono(c, r):
         return f"PELT raised {r['outcome']} {r.get('msg', '')}"
     if r["k2"] > r["k1"]:
         return f"raising the penalty scale from {c['s1']} to {r['s2']} increased the number of changepoints from {r['k1']} to {r['k2']}"
+    if r.get("ladder"):
+        a, ka, b, kb = r["ladder"]
+        return (f"raising the penalty scale from {a:.6g} to {b:.6g} increased the number of changepoints from {ka} to {kb} "
+                f"(series of {c['n']} rows, min_segment_length={c['m']}, data seed {c['seed']}, kind {c.get('data')})")
     return None
 
 
@@ -376,8 +439,20 @@ def run(chk: core.Check):
     chk.run_stream("tuned", tuned_cases(rng, N), impl_tuned, oracle=oracle_tuned, site="tune_threshold",
                    describe=lambda c: c)
     rng = core.rng_for(chk.seed, "C15/mono")
-    chk.run_stream("mono", mono_cases(rng, N), impl_mono, oracle=oracle_mono, site="PELT/penalty-monotone",
-                   nontrivial=lambda c, r: r.get("outcome") == "ok" and r["k1"] > r["k2"])
+    mcases = mono_cases(rng, N)
+    mres = chk.run_stream("mono", mcases, impl_mono, oracle=oracle_mono, site="PELT/penalty-monotone",
+                          nontrivial=lambda c, r: r.get("outcome") == "ok" and r["k1"] > r["k2"], per_case_timeout=60)
+    # monotonicity is proved for exact minimisers (pelt_monotone_in_penalty over pelt_optimal): a run of this stream that is not one
+    # breaks the tie even where the counts still happen to be ordered -> reported as a correspondence failure when the search
+    # of the same series found no pair of penalties with the counts the wrong way round
+    sub = [(c, r) for c, r in zip(mcases, mres or []) if isinstance(r, dict) and r.get("suboptimal") and not r.get("ladder")
+           and not r.get("k2", 0) > r.get("k1", 0)]
+    chk.streams["mono"]["runs_not_exact_minimisers"] = len(sub)
+    for c, r in sub[:3]:
+        chk.violations.append({"kind": "correspondence", "stream": "mono", "case": c, "impl": r,
+                               "msg": "a PELT run of the monotonicity stream is not an exact minimiser of the penalised cost (gap "
+                                      f"{r['suboptimal']['gap']:.3g}): the hypothesis of the monotonicity theorem fails on this input",
+                               "site": "PELT/penalty-monotone", "signature": "correspondence"})
     return chk.finish(trusted_extra=["the translator harness/translate.py, validated numerically on the formula grid"])
 
 
